@@ -214,8 +214,9 @@ From Gecs Require Import OracleSim.
     EVERY sequence of creations (create and create_within_capacity, any archetype, with growth, refusal
     at capacity and the capacity-limit panic),
     destructions at world level or through an archetype with any issued handle (live, stale, of another
-    archetype, or an out-of-range reference; including the generation-overflow panic), to_direct and probes at world
-    and archetype level with any issued handle, without wrapping_version: the specification oracle - the executable
+    archetype, or an out-of-range reference; including the generation-overflow panic), to_direct, writes of any
+    component through the six direct write paths (view, borrow, slice, borrowed slice, all-slices, iter_mut) and probes at
+    world and archetype level with any issued handle, without wrapping_version: the specification oracle - the executable
     reading of C01 (accepted iff alive, designates itself), C02 (own latest values, destroy hands back the
     row), C03/C14 (ids), C08 (no handle twice) and C12 (limit) that decides these properties on
     implementation traces - accepts the whole run of the model.  The proof is a simulation: the relation
